@@ -378,11 +378,11 @@ func c17(c *an.Check) {
 
 func init() {
 	register(&Def{ID: "C16", Run: c16,
-		Explain: "Decides on SSA: (R1) UnlockEnvelope returns a payload only past {context hash equal, len(collected) >= threshold+1, Recover ok, AEAD.Open ok} and the payload is Open's result under the key derived from (recovered scalar, envelope id, context); a share is collected only past the not-seen test with the seen-set updated under the same key, which is the canonical re-encoding of the decoded id; (LOOPALLOC) every collected share gets scalars allocated in its own loop iteration and BuildEnvelope allocates a fresh grant body per grant; SharesAvailable = len(collected); grants are decrypted under buildGrantEncContext(envelope id, context, grant index).",
-		NotCov:  "the 'exactly when' counting over all configurations and Shamir reconstruction itself (value-level / trusted library).",
+		Explain:     "Decides on SSA: (R1) UnlockEnvelope returns a payload only past {context hash equal, len(collected) >= threshold+1, Recover ok, AEAD.Open ok} and the payload is Open's result under the key derived from (recovered scalar, envelope id, context); a share is collected only past the not-seen test with the seen-set updated under the same key, which is the canonical re-encoding of the decoded id; (LOOPALLOC) every collected share gets scalars allocated in its own loop iteration and BuildEnvelope allocates a fresh grant body per grant; SharesAvailable = len(collected); grants are decrypted under buildGrantEncContext(envelope id, context, grant index).",
+		NotCov:      "the 'exactly when' counting over all configurations and Shamir reconstruction itself (value-level / trusted library).",
 		Assumptions: commonAssumptions})
 	register(&Def{ID: "C17", Run: c17,
-		Explain: "Decides on SSA for BuildEnvelope: share generation is reached only past 'reachable > threshold', where the compared quantity is an accumulation whose every increment is min(grant share count, remaining budget), is control-dependent on the grant having at least one keypair index, and whose budget is initialised with the very value passed to Share(n) (so an override or a different count cannot diverge between validation and generation); the sharing threshold is the configured one; grants are filled from the generated list.",
-		NotCov:  "equivalence of the validation model and the distribution loop for every configuration, and that recipients' keys decrypt their grants (C12).",
+		Explain:     "Decides on SSA for BuildEnvelope: share generation is reached only past 'reachable > threshold', where the compared quantity is an accumulation whose every increment is min(grant share count, remaining budget), is control-dependent on the grant having at least one keypair index, and whose budget is initialised with the very value passed to Share(n) (so an override or a different count cannot diverge between validation and generation); the sharing threshold is the configured one; grants are filled from the generated list.",
+		NotCov:      "equivalence of the validation model and the distribution loop for every configuration, and that recipients' keys decrypt their grants (C12).",
 		Assumptions: commonAssumptions})
 }
